@@ -405,15 +405,16 @@ func (m *ConnectMessage) Encode(dst []byte) (int, error) {
 		return 0, ErrInvalidProtocolVersion
 	}
 
-	hl := m.header.msglen()
 	ml := m.msglen()
-
-	if len(dst) < hl+ml {
-		return 0, fmt.Errorf("connect/Encode: Insufficient buffer size. Expecting %d, got %d", hl+ml, len(dst))
-	}
 
 	if err := m.SetRemainingLength(int32(ml)); err != nil {
 		return 0, err
+	}
+
+	hl := m.header.msglen()
+
+	if len(dst) < hl+ml {
+		return 0, fmt.Errorf("connect/Encode: Insufficient buffer size. Expecting %d, got %d", hl+ml, len(dst))
 	}
 
 	total := 0
